@@ -14,7 +14,9 @@ use std::io::{Read, Write};
 use std::sync::{Arc, Mutex};
 use std::time::{Duration, Instant};
 
-const WATCHDOG: Duration = Duration::from_secs(15);
+const WATCHDOG: Duration = Duration::from_secs(20);
+/// how long a response may take to arrive with no further request sent before that is reported
+const GRACE: Duration = Duration::from_secs(6);
 
 #[derive(Clone, Default)]
 struct Counters {
@@ -320,15 +322,18 @@ fn run_tcp(ep: &Endpoint, reqs: &[ReqSpec], expect_ids: &[u64], expect_dispatch:
     for r in reqs {
         wire.extend(RawFrame { h: r.h.clone(), query: r.query.clone(), body: r.body.clone() }.to_vec());
     }
-    wire.extend(sentinel(S1));
     let mut ws = s.try_clone().expect("clone");
     let writer = std::thread::spawn(move || ws.write_all(&wire).is_ok());
     let deadline = Instant::now() + WATCHDOG;
+    // every response must arrive without any further request being sent: the first sentinel goes out only
+    // once all expected responses are in (or after a grace period, which is then reported)
+    let grace = Instant::now() + GRACE;
+    let mut sent_s1 = false;
     let mut buf: Vec<u8> = Vec::new();
     let mut seen_s1 = false;
     let mut seen_s2 = false;
     let mut sent_s2 = false;
-    s.set_read_timeout(Some(Duration::from_millis(50))).ok();
+    s.set_read_timeout(Some(Duration::from_millis(4))).ok();
     let mut tmp = [0u8; 65536];
     loop {
         while let Some((f, n)) = RawFrame::parse_prefix(&buf) {
@@ -339,6 +344,15 @@ fn run_tcp(ep: &Endpoint, reqs: &[ReqSpec], expect_ids: &[u64], expect_dispatch:
             if !read_delay.is_zero() { std::thread::sleep(read_delay); }
         }
         if seen_s2 { break; }
+        if !sent_s1 && writer.is_finished() {
+            let have: Vec<u64> = out.frames.iter().map(|f| f.h.id).collect();
+            let all = expect_ids.iter().all(|i| have.contains(i));
+            if all || Instant::now() > grace {
+                if !all { out.problems.push("response-withheld-until-next-request".into()); }
+                if s.write_all(&sentinel(S1)).is_err() { out.problems.push("write-s1".into()); break; }
+                sent_s1 = true;
+            }
+        }
         if seen_s1 && !sent_s2 {
             let have: Vec<u64> = out.frames.iter().map(|f| f.h.id).collect();
             let all = expect_ids.iter().all(|i| have.contains(i));
@@ -378,22 +392,35 @@ fn run_ws(sv: &Servers, ep: &Endpoint, reqs: &[ReqSpec], expect_ids: &[u64], exp
             Err(e) => { out.problems.push(format!("connect: {e}")); return out; }
         };
         let (mut sink, mut stream) = ws.split();
-        let (s2_tx, mut s2_rx) = tokio::sync::mpsc::channel::<()>(1);
-        // sender task: all requests, the first sentinel, and (on request) the second sentinel
+        let (s2_tx, mut s2_rx) = tokio::sync::mpsc::channel::<u64>(2);
+        let sent_all = Arc::new(std::sync::atomic::AtomicBool::new(false));
+        let sent_all2 = sent_all.clone();
+        // sender task: all requests, then each sentinel when the reader asks for it
         let sender = tokio::spawn(async move {
             for r in reqs {
                 if sink.send(WsMsg::Binary(r)).await.is_err() { return false; }
             }
-            if sink.send(WsMsg::Binary(sentinel(S1))).await.is_err() { return false; }
-            if s2_rx.recv().await.is_some() {
-                if sink.send(WsMsg::Binary(sentinel(S2))).await.is_err() { return false; }
+            sent_all2.store(true, std::sync::atomic::Ordering::SeqCst);
+            while let Some(id) = s2_rx.recv().await {
+                if sink.send(WsMsg::Binary(sentinel(id))).await.is_err() { return false; }
             }
             let _ = tokio::time::timeout(Duration::from_millis(300), sink.close()).await;
             true
         });
         let deadline = Instant::now() + WATCHDOG;
+        let grace = Instant::now() + GRACE;
+        let mut sent_s1 = false;
         let (mut seen_s1, mut sent_s2) = (false, false);
         loop {
+            if !sent_s1 && sent_all.load(std::sync::atomic::Ordering::SeqCst) {
+                let have: Vec<u64> = out.frames.iter().map(|f| f.h.id).collect();
+                let all = expect_ids.iter().all(|i| have.contains(i));
+                if all || Instant::now() > grace {
+                    if !all { out.problems.push("response-withheld-until-next-request".into()); }
+                    if s2_tx.send(S1).await.is_err() { out.problems.push("send-s1".into()); break; }
+                    sent_s1 = true;
+                }
+            }
             if seen_s1 && !sent_s2 {
                 let have: Vec<u64> = out.frames.iter().map(|f| f.h.id).collect();
                 let all = expect_ids.iter().all(|i| have.contains(i));
@@ -401,12 +428,12 @@ fn run_ws(sv: &Servers, ep: &Endpoint, reqs: &[ReqSpec], expect_ids: &[u64], exp
                 if (all && quiesced) || Instant::now() > deadline - Duration::from_secs(5) {
                     if !all { out.problems.push("missing-response".into()); }
                     if !quiesced { out.problems.push("handlers-not-finished".into()); }
-                    if s2_tx.send(()).await.is_err() { out.problems.push("send-s2".into()); break; }
+                    if s2_tx.send(S2).await.is_err() { out.problems.push("send-s2".into()); break; }
                     sent_s2 = true;
                 }
             }
             if Instant::now() > deadline { out.problems.push("watchdog".into()); break; }
-            match tokio::time::timeout(Duration::from_millis(50), stream.next()).await {
+            match tokio::time::timeout(Duration::from_millis(4), stream.next()).await {
                 Err(_) => continue,
                 Ok(None) => { out.problems.push("connection-closed".into()); break; }
                 Ok(Some(Err(e))) => { out.problems.push(format!("ws-error: {e}")); break; }
